@@ -8,6 +8,7 @@ from concurrent.futures import ThreadPoolExecutor
 from vlib import *
 
 SCALE = float(os.environ.get("VERIF_SCALE", "1") or 1)     # development knob: fraction of the case volume
+PAR = int(os.environ.get("VERIF_PAR", "2") or 2)           # number of coqc processes / mlr runs at once
 FS, PS = b";", b":"
 IOFLAGS = ["--dkvp", "--ifs", ";", "--ofs", ";", "--ips", ":", "--ops", ":"]
 KEYS = [b"a", b"b", b"c", b"x", b"y"]
@@ -474,7 +475,7 @@ def run(ctx):
             ctx.violation({"broken": why}, found_input=False)
         return
     with ctx.timed("coq_cases"):
-        bad, err = coq_eval_mismatches(ctx, "C11", "Base.Record C11.Model C11.Harness", "case", "chk", terms, shard=150)
+        bad, err = coq_eval_mismatches(ctx, "C11", "Base.Record C11.Model C11.Harness", "case", "chk", terms, shard=len(terms) // PAR + 1)
     ctx.cov["correspondence"] = {"cases": len(terms), "mismatches": len(bad)}
     if err:
         ctx.violation({"broken": "correspondence-evaluation", "detail": err[-2000:]}, found_input=False)
@@ -507,7 +508,7 @@ def cli_tie(ctx, cases, obs):
     idx = list(range(len(cases)))
     ctx.rng.shuffle(idx)
     idx = [i for i in idx if cases[i][0] not in (14, 15, 16)][:(24 if ctx.tier == "quick" else 300)]
-    with ThreadPoolExecutor(8) as ex:
+    with ThreadPoolExecutor(PAR) as ex:
         res = list(ex.map(lambda i: mlr(ctx, cases[i][3], cases[i][4]), idx))
     bad = 0
     for i, (st, out, err) in zip(idx, res):
